@@ -37,6 +37,7 @@ func run(c *vf.Ctx) {
 	c.Rule("Send: payload lengths {0,1,2,0xFFFE,0xFFFF,0x10000,0x10001,0x1FFFE,0x1FFFF,0x20000,0x20001,0x2FFFF} (thorough: all 0..300 and 2^k-1,2^k,2^k+1 up to 2^18) x 2 contents, plus all sequences of 3 sends over lengths {0,1,2}; " +
 		"Receive: streams of 1..3 frames; total length <= 12 (thorough 14): every subset of the n-1 byte boundaries as segment boundaries (2^(n-1) segmentations) combined with every cut offset 0..n; " +
 		"large frames (0xFFFF,0x10000,0x1FFFF and mixed streams): every single boundary, every cut offset, and every pair of boundaries/cut within 2 bytes of a header or body edge; end of stream = EOF, EOF returned together with the last bytes (thorough: ECONNRESET); " +
+		"both directions on one transport: every sequence of up to 4 (thorough 6) operations over {Send(14 bytes), Send(0 bytes), Receive, IsConnected} x 4 (6) sets of frames the peer has already sent x {one segment, one-byte segments}; " +
 		"two connections in a row on one transport: 4 first streams x every prefix x every segmentation x every number of Receive calls x with/without Close x 3 second streams, then Send. " +
 		"distinct = distinct (stream, segmentation, cut, end kind) scripts executed against Receive, distinct (length, content) for Send")
 	c.Assume("net.Conn contract: Read returns 1..len(p) bytes of the stream in order or an error; Write takes the whole buffer; the scripted conn never blocks, so a Receive that waits for more data than the stream holds gets the end-of-stream error")
@@ -48,6 +49,9 @@ func run(c *vf.Ctx) {
 	t0 = time.Now()
 	receiveSmall(c)
 	c.Set("phase_receive_small_s", time.Since(t0).Seconds())
+	t0 = time.Now()
+	dialogue(c)
+	c.Set("phase_dialogue_s", time.Since(t0).Seconds())
 	t0 = time.Now()
 	reconnect(c)
 	c.Set("phase_reconnect_s", time.Since(t0).Seconds())
@@ -149,9 +153,6 @@ func newTransport(c *vf.Ctx, conn net.Conn) *nbt.NBTTransport {
 	t := nbt.NewNBTTransport()
 	if err := attach(t, conn); err != nil {
 		c.Fatalf("cannot give the transport its scripted connection: %v", err)
-	}
-	if !t.IsConnected() {
-		c.Fatalf("after injection IsConnected() is false")
 	}
 	return t
 }
@@ -515,6 +516,115 @@ func runScript(c *vf.Ctx, sc *script, obs func(string)) {
 			return fmt.Sprintf("Receive call %d returned error %v together with %d bytes (%s); %s", i+1, err, len(got), vf.HexS(got), sc)
 		})
 		obs(fmt.Sprintf("e:%v", err != nil))
+	}
+}
+
+// ------------------------------------------------------------------ one transport used in both directions
+
+// dialogue explores every sequence of up to 4 (thorough: 6) operations over {Send(a), Send(b), Receive, IsConnected} on
+// one transport whose peer has ALREADY sent 0..3 frames (a fast server, pipelining, an unsolicited frame):
+// the two directions are independent - the k-th Receive returns the k-th frame the peer sent (an error once
+// they are used up), the peer gets exactly the frames of the payloads sent, in order - and asking whether the
+// transport is connected consumes nothing.
+func dialogue(c *vf.Ctx) {
+	pre := "C11/dialogue/"
+	pay := [][]byte{[]byte("hello, request"), {}}
+	peers := [][]int{{}, {20}, {3, 0}, {0, 5, 1}}
+	maxLen := 4
+	if c.Thorough() {
+		maxLen = 6
+		peers = append(peers, []int{1, 1, 1, 1}, []int{300, 2})
+	}
+	for _, pl := range peers {
+		st := mkStream(pl, 1)
+		for _, oneByte := range []bool{false, true} {
+			var segs []int
+			if oneByte {
+				for i := 1; i <= len(st.bytes); i++ {
+					segs = append(segs, i)
+				}
+			}
+			var seq []int
+			var rec func()
+			rec = func() {
+				if len(seq) > 0 {
+					atomic.AddInt64(&executions, 1)
+					conn := &scriptConn{stream: st.bytes, segs: segs, end: endEOF}
+					t := newTransport(c, conn)
+					name := func() string {
+						var w []string
+						for _, o := range seq {
+							w = append(w, [...]string{"Send(14 bytes)", "Send(0 bytes)", "Receive", "IsConnected"}[o])
+						}
+						seg := "one segment"
+						if oneByte {
+							seg = "one-byte segments"
+						}
+						return fmt.Sprintf("peer has already sent frames with payload lengths %v (%s); operations %s", pl, seg, strings.Join(w, "; "))
+					}
+					c.Case([]byte("dialogue"), []byte(fmt.Sprint(pl, oneByte, seq)))
+					var want []byte
+					got := 0
+					ok := true
+					for i, o := range seq {
+						switch o {
+						case 0, 1:
+							var n int
+							var err error
+							if p, msg, where := vf.Try(func() { n, err = t.Send(pay[o]) }); p {
+								c.Fail(pre+"no-panic@"+where, fmt.Sprintf("operation %d panicked: %s; %s", i+1, msg, name()))
+								return
+							}
+							want = append(want, frame(pay[o])...)
+							c.Check(pre+"send-accepted", err == nil, func() string {
+								return fmt.Sprintf("operation %d: Send = (%d, %v); %s", i+1, n, err, name())
+							})
+						case 2:
+							var m []byte
+							var err error
+							if p, msg, where := vf.Try(func() { m, err = t.Receive() }); p {
+								c.Fail(pre+"no-panic@"+where, fmt.Sprintf("operation %d panicked: %s; %s", i+1, msg, name()))
+								return
+							}
+							if got < len(pl) {
+								w := st.payload(got)
+								good := err == nil && bytes.Equal(m, w)
+								c.Check(pre+"k-th-Receive-returns-k-th-frame-whatever-was-sent-or-asked-in-between", good, func() string {
+									return fmt.Sprintf("operation %d: Receive = (%d bytes %s, %v), want the %d-byte payload %s of the peer's frame %d; %s", i+1, len(m), vf.HexS(m), err, len(w), vf.HexS(w), got+1, name())
+								})
+								ok = ok && good
+								got++
+							} else {
+								c.Check(pre+"Receive-after-the-last-frame-reports-an-error", err != nil && len(m) == 0, func() string {
+									return fmt.Sprintf("operation %d: Receive = (%d bytes %s, %v) although the peer's %d frames had all been received and the stream had ended; %s", i+1, len(m), vf.HexS(m), err, len(pl), name())
+								})
+							}
+						case 3:
+							if p, msg, where := vf.Try(func() { t.IsConnected() }); p {
+								c.Fail(pre+"no-panic@"+where, fmt.Sprintf("operation %d panicked: %s; %s", i+1, msg, name()))
+								return
+							}
+						}
+						if !ok {
+							break
+						}
+					}
+					w := conn.written()
+					c.Check(pre+"peer-gets-exactly-the-frames-of-the-payloads-sent", bytes.Equal(w, want), func() string {
+						return fmt.Sprintf("the peer received %s, want %s; %s", vf.HexS(w), vf.HexS(want), name())
+					})
+				}
+				if len(seq) == maxLen {
+					return
+				}
+				for o := 0; o < 4; o++ {
+					seq = append(seq, o)
+					rec()
+					seq = seq[:len(seq)-1]
+				}
+			}
+			rec()
+		}
 	}
 }
 
